@@ -51,6 +51,7 @@ var variants = []variant{
 	{"tokens,other-asset-returned", true, bp(false), false},
 	{"tokens-in-two-inputs,sum-returned", true, bp(true), true},
 	{"ada-only,return-adds-tokens", true, nil, false},
+	{"tokens-in-two-inputs,no-return", false, bp(false), true},
 }
 
 type ccase struct {
@@ -111,7 +112,7 @@ func build(tc ccase, key Key, seed int64) (*TxRec, *StubState, error) {
 			coin += uint64(s) % uint64(tc.N)
 		}
 		o := Out{Addr: EnterpriseAddr(key), Coin: coin}
-		hasTok := tc.Var >= 2 && tc.Var <= 7
+		hasTok := tc.Var >= 2 && tc.Var <= 7 || tc.Var == 9
 		if hasTok {
 			switch {
 			case v.twoToken && tc.N >= 2 && i == 0:
@@ -302,6 +303,9 @@ func main() {
 		attr     []RuleResult
 		dirRej   map[string]bool // requirement -> the era's exported rule for it rejects
 		panicked bool
+		mutated  bool   // the state dump differs after validation
+		reeval   string // non-empty: two evaluations of the era list on the same state differ
+		dumps    [2]string
 	}
 	res := make([]result, len(cases))
 	vlib.Parallel(len(cases), func(i int) {
@@ -318,8 +322,21 @@ func main() {
 			return
 		}
 		pp := PPFor(tc)
+		// validation must be a pure function of (tx, state): the era list is evaluated twice on the
+		// SAME state object (the exported collateral rules run in between) and the state is dumped
+		// before and after
+		dump0 := ls.Dump()
 		all := RunList(Rules(tc.Era), tx, 100, ls, pp)
 		r.attr = Attributable(all, base[bkey{cfg{tc.Era, tc.Valid, tc.RMap}, tc.Fee, tc.Pct}])
+		defer func() {
+			again := RunList(Rules(tc.Era), tx, 100, ls, pp)
+			if a, b := Signature(all), Signature(again); a != b {
+				r.reeval = fmt.Sprintf("1st evaluation rejects [%s]; 2nd evaluation rejects [%s]", a, b)
+			}
+			if d := ls.Dump(); d != dump0 {
+				r.mutated, r.dumps = true, [2]string{dump0, d}
+			}
+		}()
 		for _, x := range r.attr {
 			if x.Panic != nil {
 				r.panicked = true
@@ -346,6 +363,19 @@ func main() {
 			"rejecting_rules": names(r.attr), "direct_rules_rejecting": r.dirRej, "max_collateral_inputs": maxColl}
 		if r.err != nil {
 			c.Violation("decode|"+cfgName(tc), fmt.Sprintf("well-formed transaction rejected by the decoder: %v", r.err), replay)
+			continue
+		}
+		if r.mutated || r.reeval != "" {
+			replay["state_before"], replay["state_after"], replay["verdicts"] = r.dumps[0], r.dumps[1], r.reeval
+			c.Eval(fmt.Sprintf("purity|%s|%s", cfgName(tc), v.name), fmt.Sprintf("state-mutated=%v/verdict-changes=%v", r.mutated, r.reeval != ""))
+			if r.mutated {
+				c.Violation(fmt.Sprintf("collateral|era=%s|state-mutated-by-validation", EraNames[tc.Era]),
+					fmt.Sprintf("%s, %s, n=%d: validating the transaction changed the ledger state: before %q after %q", cfgName(tc), v.name, tc.N, r.dumps[0], r.dumps[1]), replay)
+			}
+			if r.reeval != "" {
+				c.Violation(fmt.Sprintf("collateral|era=%s|verdict-changes-on-re-evaluation", EraNames[tc.Era]),
+					fmt.Sprintf("%s, %s, n=%d: the same transaction on the same state object gets different verdicts: %s", cfgName(tc), v.name, tc.N, r.reeval), replay)
+			}
 			continue
 		}
 		o := judge(tc)
